@@ -525,7 +525,7 @@ def _pipeline_task(task):
 def pipeline_tasks(tier, seed):
     rng = np.random.default_rng([int(seed), 404])
     quick = tier == 'quick'
-    shapes = ['d2_bal', 'd3_bal', 'd3_chain', 'd1_four', 'd2_single_child', 'd3_mid_single']
+    shapes = ['d2_bal', 'd3_bal', 'd3_chain', 'd1_four', 'd2_single_child', 'd3_mid_single', 'd3_reuse', 'd3_slash']
     encs = ['dense', 'csr', 'csc']
     tasks = []
     for i, shape in enumerate(shapes):
@@ -550,7 +550,7 @@ def run(tier='quick', seed=0, jobs=1):
                        "same inputs as tally_votes with reference_types drawn with repetition (aggregation) or distinct; "
                        "n_assignments in {1,2,3,10}", [CL_WINNER, CL_PROB, CL_AVG, CL_RUN])
     row_c = fx.new_row(F_RTA, 'seeded-random',
-                       "traced run_mapping on 6 taxonomy shapes (depth 1-3, single-child parents), <= 18 query cells, <= 27 "
+                       "traced run_mapping on 8 taxonomy shapes (depth 1-3, single-child parents, labels shared by an internal node and a leaf, node names with '/'), <= 18 query cells, <= 27 "
                        "genes in different column order in query and reference, raw and log2CPM input, dense/csr/csc; "
                        "factor {0.05,0.3,0.6,1}, iterations {1,5,12}, runners-up {0,2,5}, chunk {5,18}, workers {1,2}, "
                        "flatten / drop_level; every cell-level recomputed from the input files",
